@@ -85,6 +85,8 @@ type World struct {
 	RO       map[string]bool
 	Events   []map[string]interface{}
 	Prefix   string // storage-level name prefix making this world's names unique
+	FS       *FaultStore
+	Faulted  bool // a storage failure was injected: memory and storage may disagree from here on
 	Sys      *sys.System
 	HTTP     *service.HTTPService
 	Svc      *service.Service
@@ -137,6 +139,10 @@ func (w *World) newLocation(name string) (*core.Location, error) {
 
 func NewWorld(cfg Config, r *Recorder, store core.Storage) (*World, error) {
 	w := &World{Cfg: cfg, R: r, Store: store, Locs: map[string]*core.Location{}, RO: map[string]bool{}}
+	if cfg.Via == "" && store != nil {
+		w.FS = NewFaultStore(store, cfg.Locs)
+		w.Store = w.FS
+	}
 	w.Provider = core.NewSimpleLocationProvider(w.Locs)
 	if cfg.Via == "system" || cfg.Via == "http" {
 		if err := w.initSystem(cfg.Sys); err != nil {
@@ -170,15 +176,16 @@ func NewWorld(cfg Config, r *Recorder, store core.Storage) (*World, error) {
 
 // Op is one call of the location API.
 type Op struct {
-	Op    string
-	Loc   string
-	Id    string
-	Val   map[string]interface{}
-	Inh   bool
-	WK    string
-	RK    string
-	Flag  bool
-	Names []string
+	FailIn int // make the FailIn-th storage write of this operation fail (0: none)
+	Op     string
+	Loc    string
+	Id     string
+	Val    map[string]interface{}
+	Inh    bool
+	WK     string
+	RK     string
+	Flag   bool
+	Names  []string
 }
 
 type Res struct {
@@ -332,6 +339,12 @@ func (w *World) Do(op Op) Res {
 	loc := w.Locs[op.Loc]
 	res := Res{C: "ok"}
 	val := copyMap(op.Val) // the code may modify what it is given
+	if w.FS != nil {
+		w.FS.BeginOp()
+		if op.FailIn > 0 {
+			w.FS.FailIn(op.FailIn)
+		}
+	}
 	if w.HTTP != nil {
 		w.nreq++
 		enc := w.Cfg.Encoding
@@ -415,6 +428,16 @@ func (w *World) Do(op Op) Res {
 	}
 recorded:
 	after := time.Now().Unix()
+	var images []interface{}
+	fired := false
+	if w.FS != nil {
+		fired = w.FS.Fired
+		w.FS.FailIn(0)
+		images = w.encodeImages(w.FS.EndOp())
+	}
+	if images == nil {
+		images = []interface{}{}
+	}
 
 	t := w.R.T
 	// expiry instants the specification computes from now + ttl
@@ -461,8 +484,9 @@ recorded:
 		"inh": op.Inh, "wk": op.WK, "rk": op.RK, "now": now, "flag": op.Flag, "names": names,
 		"res": map[string]interface{}{"c": res.C, "id": res.Id, "val": t.Encode(res.Val),
 			"found": found, "ids": ids, "n": res.N, "tree": nonNilMaps(res.Tree), "vals": nonNil(res.Vals)},
-		"disk": w.diskIds(), "msg": res.Msg, "enc": res.Enc,
+		"disk": w.diskIds(), "msg": res.Msg, "enc": res.Enc, "crashes": images, "fault": fired,
 	}
+	w.Faulted = w.Faulted || fired
 	if res.Bad {
 		ev["res"].(map[string]interface{})["c"] = "unintelligible"
 	}
